@@ -130,7 +130,7 @@ func zzDrawScenario(enabled []int) zzScen {
 			maxO = 17
 		}
 		o, hasO := zzValues(maxO, true)
-		if zzChoose(4) == 3 {
+		if zzChoose(2) == 1 {
 			o, hasO = []string{zzLongPortOrigin()}, true
 		}
 		s.q = zzKindRequest(zzChoose(3), o, hasO)
@@ -201,7 +201,7 @@ func zzDrawScenario(enabled []int) zzScen {
 		}
 		s.c = zzDrawCfg(l)
 		s.c.cfg.Credentialed = zzBool()
-		s.q = zzKindRequest(zzChoose(3), zzLiteralOrigin(), zzChoose(4) != 0)
+		s.q = zzKindRequest(zzChoose(3), zzLiteralOrigin(), zzChoose(2) != 0)
 		s.debug = zzBool()
 	case zzFDispatch:
 		if zzChoose(2) == 1 {
